@@ -1,7 +1,7 @@
 (* C07 — global references stay bound to the same global across edits.  Statements only. *)
 From Coq Require Import List Arith NArith Bool.
 Import ListNotations.
-From Orca Require Import Util Reindex Reorg ReidxProofs ReidxBind ReidxInv CheckReidx SelfReidx GenRefers RefersThm.
+From Orca Require Import Util Reindex Reorg ReidxProofs ReidxBind ReidxInv CheckReidx SelfReidx GenRefers RefersThm ReidxHandles.
 Local Open Scope N_scope.
 
 (* the index-space theorems are shared by the three re-indexed spaces (functions, globals, memories) *)
@@ -91,3 +91,17 @@ Print Assumptions C07_binding_on_the_emitted_module.
    added before a conversion) is bound correctly *)
 Example C07_binding_nonvacuous : True.
 Proof. pose proof reachable_binding_nonvacuous. pose proof reachable_binding_former_D02_witness. exact I. Qed.
+
+(* Stable handles: the id returned for an added global (add_global at module or iterator level) still designates that item after ANY later history
+   that does not delete it, in whatever space the other edits happen, and the emitted module has that item at the index
+   the id is mapped to -- so a reference through the returned id stays bound to it. *)
+Theorem C07_returned_id_stays_bound :
+  forall base h1 o fp h2 m0 r0 m1 id m rets dead sites e,
+  wf base -> run_pref base h1 [] = (m0, r0, false) ->
+  adds o SG fp = true -> Reindex.step m0 o = Ok (m1, Some id) ->
+  run_pref m1 h2 [] = (m, rets, false) -> existsb (fun o' => names o' SG id) h2 = false ->
+  encode m dead sites = Ok e ->
+  forall l mp, index_space (get_sp m SG) = Ok (l, mp) ->
+  exists q, lookup mp id = Some q /\ designates e SG q = Some fp.
+Proof. intros base h1 o fp. exact (returned_id_designates_in_emitted_module base h1 o SG fp). Qed.
+Print Assumptions C07_returned_id_stays_bound.
